@@ -147,7 +147,8 @@ func (h *Handler) isHostOrRouter(ip netip.Addr) bool {
 // allocIPOffer allocates a free IP to the lease entry
 func (h *Handler) allocIPOffer(lease *Lease, reqIP netip.Addr) error {
 	if reqIP.Is4() && h.validRequestedIP(lease, reqIP) {
-		if l := h.findByIP(reqIP); l == nil || l.State == StateFree || bytes.Equal(l.ClientID, lease.ClientID) {
+		// findByIP returns one lease with that address; a stale free lease of this client may hide another client's current one
+		if l := h.findByIP(reqIP); (l == nil || l.State == StateFree || bytes.Equal(l.ClientID, lease.ClientID)) && !h.allocatedToOther(lease, reqIP) {
 			if h.session.FindIP(reqIP) == nil {
 				lease.IPOffer = reqIP
 				if Logger.IsInfo() {
